@@ -28,7 +28,7 @@ os.environ.setdefault("ISO_REPO", "/repo")
 import impl            # noqa: E402
 import impl_text       # noqa: E402,F401
 import impl_rectext    # noqa: E402,F401
-from common import MODES, rand_date, rand_tod, month_len, qstr  # noqa: E402
+from common import MODES, rand_date, month_len, qstr  # noqa: E402
 
 MODELRUN = os.environ.get("VERIF_MODELRUN") or os.path.join(
     HERE, "..", "coq", "Extract", "out_rectext", "modelrun")
@@ -41,18 +41,75 @@ W53_G = [2004, 2009, 2015, 2020, 2026]
 EXACT_FR = [Fraction(1, 2), Fraction(1, 4), Fraction(3, 4)]
 
 
-def rand_point(rng, md, year=None, form=None, allow24=True):
-    y = rng.choice(YEARS) if year is None else year
-    if rng.random() < 0.25:
-        y = rng.randint(0, 9999)
-    if md == "G" and rng.random() < 0.04:
+Z_Q15 = [z for z in ZONES if z[1] % 15 == 0]
+FR_ANY = [Fraction(1, 2), Fraction(1, 4), Fraction(3, 4), Fraction(1, 8)]
+FR_Q = [Fraction(1, 2), Fraction(1, 4), Fraction(3, 4)]
+
+
+def my_tod(rng, form, grid=None):
+    """Time-of-day token.  The implementation computes with floats, the model
+    with exact rationals: values are kept where float arithmetic is exact
+    (binary fractions; hour-only forms on a quarter-hour grid; `grid` = 15
+    forces a whole multiple of 15 minutes / 15 seconds)."""
+    if rng.random() < 0.08 and grid is None:
+        return {"S": "S 24 0 0", "M": "M 24 0", "H": "H 24"}[form]
+    h = rng.choice([0, 0, 11, 12, 23, 23, rng.randint(0, 23)])
+    m = rng.choice([0, 0, 59, 59, 30, rng.randint(0, 59)])
+    s = rng.choice([0, 0, 1, 59, 59, rng.randint(0, 59)])
+    if form == "S":
+        if grid == 15:
+            return "S %d %d %d" % (h, rng.choice([0, 15, 30, 45]), 0)
+        if grid == "s15":
+            return "S %d %d %d" % (h, m, rng.choice([0, 15, 30, 45]))
+        sec = Fraction(s) + (rng.choice(FR_ANY) if rng.random() < 0.3 else 0)
+        return "S %d %d %s" % (h, m, qstr(sec))
+    if form == "M":
+        if grid == 15:
+            return "M %d %d" % (h, rng.choice([0, 15, 30, 45]))
+        fr = rng.choice(FR_ANY) if rng.random() < 0.5 else 0
+        return "M %d %s" % (h, qstr(Fraction(m) + fr))
+    fr = rng.choice(FR_Q) if rng.random() < 0.5 else 0
+    return "H %s" % qstr(Fraction(h) + fr)
+
+
+def rand_point(rng, md, year=None, form=None, grid=None, q15zone=False):
+    if year is None:
+        y = rng.choice(YEARS)
+        if rng.random() < 0.25:
+            y = rng.randint(0, 9999)
+    else:
+        y = year
+    if md == "G" and year is None and rng.random() < 0.04:
         y = rng.choice(W53_G)
         date = "W %d 53 %d" % (y, rng.randint(1, 7))
     else:
         date = rand_date(rng, md, y)
-    tod = rand_tod(rng, form=form, allow24=allow24)
-    z = rng.choice(ZONES)
-    return "%s %s %d %d" % (date, tod, z[0], z[1]), tod.split()[0]
+    form = form or rng.choice(["S", "S", "S", "M", "H"])
+    tod = my_tod(rng, form, grid)
+    z = rng.choice(Z_Q15 if (form == "H" or q15zone) else ZONES)
+    return "%s %s %d %d" % (date, tod, z[0], z[1]), form
+
+
+def rand_pair(rng, md):
+    """start and end of a start/second-point recurrence, a few years apart at
+    most, in forms between which the implementation's floats stay exact."""
+    fs = rng.choice(["S", "S", "S", "M", "H"])
+    if fs == "S":
+        fe = rng.choice(["S", "S", "S", "M", "H"])
+        s, _ = rand_point(rng, md, form=fs, q15zone=(fe == "H"))
+        ge = None
+    elif fs == "M":
+        fe = rng.choice(["M", "M", "H", "S"])
+        s, _ = rand_point(rng, md, form=fs, q15zone=(fe == "H"))
+        ge = "s15" if fe == "S" else None
+    else:
+        fe = rng.choice(["H", "H", "M", "S"])
+        s, _ = rand_point(rng, md, form=fs)
+        ge = None if fe == "H" else 15
+    y = int(s.split()[1])
+    y2 = min(9999, y + rng.choice([0, 0, 0, 1, 1, 2, 7]))
+    e, _ = rand_point(rng, md, year=y2, form=fe, grid=ge, q15zone=(fs == "H"))
+    return s, e
 
 
 def rand_dur(rng, tod_form, tags):
@@ -156,10 +213,7 @@ def gen_case(rng):
             e = s
             tags.append("se:identical")
         else:
-            s, _ = rand_point(rng, md)
-            y = int(s.split()[1])
-            y2 = min(9999, y + rng.choice([0, 0, 0, 1, 1, 2, 10]))
-            e, _ = rand_point(rng, md, year=y2)
+            s, e = rand_pair(rng, md)
             tags.append("se:random")
     elif r < 0.70:
         tags.append("shape:start-dur")
